@@ -124,4 +124,20 @@ theorem code_getIPInfoFromIP (get : GoRT.Opaque "ipinfo.IPInfoMap" → List UInt
       some ((fromIP (Tie.IP.dbOf get ip2info ip) ip).label, (fromIP (Tie.IP.dbOf get ip2info ip) ip).isErr) :=
   Tie.IP.getIPInfoFromIP_tie get ip2info ip
 
+
+/-- **code_getIPInfoFromAddr**: the translated `GetIPInfoFromAddr` (what every collector calls with the client address): as long as
+    `strings.IndexByte` answers an offset inside the string, it never panics and the label and error flag are the model's
+    `fromAddr` of the parse outcome — XA for a nil address, a host:port that does not split, or a host that is no IP literal
+    AFTER an IPv6 zone has been dropped (the repaired defect ecd4461 lives here); otherwise the class of the IP, decided as in
+    `code_getIPInfoFromIP`.  `net.SplitHostPort`, `net.ParseIP`, `strings.IndexByte`, `addr.String()` and the database are
+    parameters. -/
+theorem code_getIPInfoFromAddr (str : GoRT.Opaque "net.Addr" → String)
+    (get : GoRT.Opaque "ipinfo.IPInfoMap" → List UInt8 → Gen.Code.IPInfo × Option String)
+    (idx : String → UInt8 → Int) (parseIP : String → List UInt8) (split : String → String × String × Option String)
+    (ip2info : GoRT.Opaque "ipinfo.IPInfoMap") (addr : GoRT.Opaque "net.Addr") (hidx : ∀ h, idx h 37 ≤ GoRT.strLen h) :
+    (Gen.Code.GetIPInfoFromAddr str get idx parseIP split ip2info addr).map (fun r => (r.1.CountryCode, r.2.isSome)) =
+      some ((fromAddr (Tie.IP.dbOf get ip2info (parseIP (Tie.IP.hostOf idx (split (str addr)).1))) (Tie.IP.parsedOf str idx parseIP split addr)).label,
+            (fromAddr (Tie.IP.dbOf get ip2info (parseIP (Tie.IP.hostOf idx (split (str addr)).1))) (Tie.IP.parsedOf str idx parseIP split addr)).isErr) :=
+  Tie.IP.getIPInfoFromAddr_tie str get idx parseIP split ip2info addr hidx
+
 end OutlineModel.Props.C20
